@@ -90,7 +90,7 @@ func ruleGC(c *Ctx, rule string) {
 		}
 		// raw deletions live only in the removers
 		for _, d := range callsLocal(fn, "os.Remove") {
-			c.ob(rule, fn, "os.Remove only inside the leaky-file removers", d, strings.HasPrefix(fn.Name(), "removeLeaky"), "state files are deleted only by removeLeakyIPFile / removeLeakyStateFile")
+			c.ob(rule, fn, "os.Remove only inside the leaky-file removers", d, strings.HasPrefix(bareName(fn), "removeLeaky"), "state files are deleted only by removeLeakyIPFile / removeLeakyStateFile")
 		}
 	}
 	if n < 3 {
@@ -208,14 +208,19 @@ func ruleGC(c *Ctx, rule string) {
 				}
 			}
 			c.ob(rule, fn, "the docker daemon is asked on every call", ask[0], asked, "every path to a return passes client.ContainerInspect (no local short-circuit that would starve collection)")
-			ctxOK := guardEdges(fn, predEq(func(v ssa.Value) bool { return v == ce[0].Value() }, isNilConst))
-			c.ob(rule, fn, "a timeout is never classified as not-found", nf[0], guardedBy(fn, nf[0], ctxOK), "IsErrContainerNotFound reachable only through the contextError == nil edge")
+			// the classification may live in a helper of its own (context error first, then not-found): judge it where it is
+			host := fn
+			if nf[0].Parent() == ce[0].Parent() {
+				host = nf[0].Parent()
+			}
+			ctxOK := guardEdgesX(host, predEq(func(v ssa.Value) bool { return v == ce[0].Value() }, isNilConst))
+			c.ob(rule, fn, "a timeout is never classified as not-found", nf[0], guardedBy(host, nf[0], ctxOK), "IsErrContainerNotFound reachable only through the contextError == nil edge")
 			// only the not-found classifier yields ContainerNotFoundError
-			isNF := guardEdges(fn, predCall("IsErrContainerNotFound", nil))
+			isNF := guardEdgesX(host, predCall("IsErrContainerNotFound", nil))
 			okT := true
-			allInstrs(fn, func(in ssa.Instruction) {
+			allInstrsX(fn, func(in ssa.Instruction) {
 				if mi, ok := in.(*ssa.MakeInterface); ok && typeNameOf(mi.X.Type()) == "ContainerNotFoundError" {
-					if !guardedBy(fn, mi, isNF) {
+					if !guardedBy(mi.Parent(), mi, isNF) {
 						okT = false
 					}
 				}
